@@ -109,8 +109,14 @@ func (m *vc18m) observe() {
 	}
 }
 
-func (m *vc18m) step() {
-	switch vf.Choice("op", 8) {
+func (m *vc18m) step() { m.stepOf(vf.Choice("op", 8)) }
+
+// stepNarrow: the single-value operations and the sorts only (used for the
+// fourth step of the thorough tier, which would otherwise not complete)
+func (m *vc18m) stepNarrow() { m.stepOf([]int{0, 1, 2, 3, 6, 7}[vf.Choice("op6", 6)]) }
+
+func (m *vc18m) stepOf(op int) {
+	switch op {
 	case 0:
 		v := vf.Range("v", 0, 2)
 		m.op("Add")
@@ -179,7 +185,11 @@ func VC18_Ops() {
 		n = 4
 	}
 	for i := 0; i < n; i++ {
-		m.step()
+		if i == 3 {
+			m.stepNarrow()
+		} else {
+			m.step()
+		}
 		m.observe()
 	}
 	vf.Reach("done")
